@@ -1,5 +1,5 @@
-(* driver for C11.  Case line: "<sink> <op> ..." (see harness/C11.c for the op syntax); a
-   final flush is appended to every case.  Observation: per op the delivered chunks,
+(* driver for C11.  Case line: "<sink> <op> ..." (see harness/C11.c for the op syntax); the
+   destruction of the terminal (ODestroy) is appended to every case.  Observation: per op the delivered chunks,
    "c,c;c;;" (chunk = 'f' or 'd' for the sink, then hex, "-" = empty chunk; every op closed by ';').
    model mode prints the model's observation; oracle mode reads "<case> | <obs>" and prints
    OK or BAD according to the extracted checker [check] (OutBufSpec.v). *)
@@ -28,8 +28,13 @@ let no_nul l = if List.exists (fun z -> z = Z0) l then failwith "nul in S/T oper
 let op_of_tok t =
   let rest = String.sub t 1 (String.length t - 1) in
   match t.[0] with
-  | 'B' -> OSetBuf (z_of_int (int_of_string rest))
+  | 'B' ->
+    (* BX0/BX1/BX2: sizes near SIZE_MAX whose allocation fails; the model only needs "some
+       non-negative size", OCaml's max_int stands for them *)
+    if String.length rest > 0 && rest.[0] = 'X' then OSetBufFail (z_of_int max_int)
+    else OSetBuf (z_of_int (int_of_string rest))
   | 'F' -> OFlush
+  | 'X' -> OTeardown
   | 'W' -> (match String.split_on_char ':' rest with
       | [h; l] -> OWrite (bytes_of_hex h @ [nul], z_of_int (int_of_string l))
       | _ -> failwith "W")
@@ -44,9 +49,9 @@ let parse_case line =
   match split_ws line with
   | sink :: toks ->
     let f, d = match sink with
-      | "f" -> true, false | "d" -> false, true | "b" -> true, true | "n" -> false, false
+      | "f" -> true, false | "d" | "z" -> false, true | "b" | "w" -> true, true | "n" -> false, false
       | _ -> failwith "sink" in
-    (f, d, List.map op_of_tok toks @ [OFlush])
+    (f, d, List.map op_of_tok toks @ [ODestroy])
   | [] -> failwith "case"
 let pr_outs outs =
   let b = Buffer.create 256 in
